@@ -172,7 +172,7 @@ def run(ctx, replay_inputs=None):
             corpus = vlib.read_jsonl(cp)
         if corpus:
             analyse(ctx, tool, execute(ctx, tool, corpus, "corpus") or [])
-        n, maxops = (QUICK_N, QUICK_OPS) if ctx.tier == "quick" else (1600, 60)
+        n, maxops = (QUICK_N, QUICK_OPS) if ctx.tier == "quick" else (1200, 60)
         hs = gen_histories(ctx, tool, n, maxops)
         analyse(ctx, tool, hs)
         for h in hs[3:5]:
